@@ -3,6 +3,7 @@ import json, os, re, time
 from concurrent.futures import ThreadPoolExecutor
 from .common import *
 from . import verus_engine as V
+from . import kani_engine as K
 
 # ---------------------------------------------------------------- baselines for engine V
 # trusted = names found by the mechanical scan of the assembled file (external_body items, assume/admit)
@@ -51,7 +52,7 @@ def run_v_units(prop, names):
 
 
 # ---------------------------------------------------------------- properties
-def c05(prop, tier, seed):
+def c05_v(prop, tier, seed):
     obs, infos = run_v_units(prop, ["utils_A", "utils_B"])
     return dict(obs=obs, infos=infos, level="proof", assumptions=list(V_ASSUMPTIONS["utils"]),
                 explanation="C05 clause 1 (overlap scan): Verus proves, for every N, every list length and every string, on the bodies of sylvia/src/utils.rs extracted verbatim (rewrites R1-R3): pass A disjoint(msgs) => neither panic! nor unreachable!() reachable, all indexing in bounds, no overflow, termination; pass B all_sorted(msgs) and normal return => disjoint(msgs).")
@@ -63,7 +64,47 @@ def c11(prop, tier, seed):
                 explanation="C11 (conversion functions): Verus proves on the bodies of IntoMsg::into_msg and IntoResponse::into_response extracted from sylvia/src/into_response.rs, for all responses (any number/kind of sub-messages, attributes, events, data) and for two feature sets: Ok => every sub-message converted with id/payload/gas_limit/reply_on/content intact and in order, events/attributes/data equal; Err => some message is Custom; no Custom => Ok.")
 
 
-REGISTRY = {"C05": c05, "C11": c11}
+G_ASSUMPTIONS = [
+    "bounded (programs): the quantifier over programs is replaced by the fixture corpus generated by kani/gen_fixtures.py (listed under coverage.fixtures); the quantifier over argument values, block height, sender length is universal (symbolic, full domain)",
+    "Kani 0.68 / CBMC 6.11 / CaDiCaL are trusted; Kani results are partial correctness (termination not proved); unwinding assertions stay on",
+    "std::backtrace::Backtrace::capture and alloc::fmt::format are stubbed in harnesses that can construct a StdError (error text / backtrace not modelled)",
+    "Storage/Api/Querier are small recording dummies; funds are empty; heap payloads are 0-2 bytes",
+    "wire shape is stated on the serde data model (recording Serializer / scripted self-describing Deserializer); serde_json's struct->text and text->events steps are a dependency and assumed",
+    "expected names, field names, argument order and handler numbers come from the table in kani/gen_fixtures.py (the method signatures), not from the macro output",
+]
+
+
+def g_prop(explanation, features=None, uncovered=None, extra_assumptions=()):
+    def f(prop, tier, seed):
+        obs, infos = K.run_property(prop, tier, features)
+        if not obs:
+            raise Undecided("no obligation registered for %s in tier %s" % (prop, tier))
+        fixtures = sorted(set(o.extra.get("fixture", "") for o in obs if o.extra.get("fixture")))
+        return dict(obs=obs, infos=infos, level="other", assumptions=G_ASSUMPTIONS + list(extra_assumptions), explanation=explanation, fixtures=fixtures, uncovered=uncovered or [])
+    return f
+
+
+def c05(prop, tier, seed):
+    r = c05_v(prop, tier, seed)
+    obs, infos = K.run_property(prop, tier, None)
+    r["obs"].extend(obs); r["infos"].extend(infos)
+    r["assumptions"] += ["clause 2 (published list vs wire names) is bounded over programs: " + G_ASSUMPTIONS[0], G_ASSUMPTIONS[4], G_ASSUMPTIONS[5]]
+    r["uncovered"] = ["the `const _` call site inside the wrapper's dispatch (its effect is a failed build)"]
+    r["fixtures"] = sorted(set(o.extra.get("fixture", "") for o in obs if o.extra.get("fixture")))
+    return r
+
+
+REGISTRY = {
+    "C01": g_prop("C01 on the fixture corpus: for every generated message variant, the recording Serializer sees variant = method name, fields = argument names in order, values = arguments (all values symbolic); constructors build the literal; {own name: own fields} decodes back to an equal message; for every ASCII key up to 12 bytes a message type decodes to variant i only if key = name_i (wildcard-free match = exact variant set).",
+                  uncovered=["struct->JSON text (serde_json)", "argument types beyond integer scalars"]),
+    "C02": g_prop("C02 on the fixture corpus: for every handler of every kind, dispatching its variant (directly and through the contract-level wrapper) runs exactly that handler once (call counters), with every field value at the parameter of the same name (incl. an 11-parameter handler and two same-typed parameters), the caller's storage/api reached, env.block.height and sender passed through, the handler's Err converted by Into, its Ok response untouched, and for a query the JSON of the returned value.",
+                  uncovered=["funds other than empty", "querier pass-through"]),
+    "C03": g_prop("C03 on the fixture corpus: (i) published name lists equal the wire names, (ii) the contract-level wrapper serialises exactly as the wrapped part (recording Serializer), (iii) wrapper dispatch routes each part's message to that part's handler; exact set of wrapper parts (wildcard-free match).",
+                  uncovered=["the wrapper's hand-written Deserialize (accept iff exactly one part accepts; error text; no panic): CBMC does not finish on serde_cw_value's BTreeMap (DESIGN.md §2.4)"]),
+    "C04": g_prop("C04 on the fixture corpus, as a chain: entry point of kind K takes the K wrapper type (fn-pointer coercion), which is ContractApi's K type; its variants wrap only the parts' K messages; each K message has exactly the K-annotated methods as variants; dispatching any of them bumps only a K handler counter; a K1-only name is rejected by the K2 message type.",
+                  uncovered=["the multitest Contract impl (contract/mt.rs) sits behind cw_multi_test"]),
+    "C05": c05, "C11": c11,
+}
 
 
 # ---------------------------------------------------------------- verdict
